@@ -16,8 +16,8 @@ def slab_configs(tier):
     # look-up in the 64 KiB product table (costly for CBMC), so the wide configurations exercise AddAssign only (kinds = 1).
     cfgs = [(3, 1, True, "kani::any()", 3), (3, 3, True, "0x53", 3), (2, 9, False, "0x53", 1), (4, 2, True, "0xA7", 3)]
     if tier == "thorough":
-        cfgs += [(4, 4, True, "0x02", 3), (3, 8, True, "0x8E", 1), (3, 9, True, "0x53", 1), (2, 17, False, "0x1D", 1), (2, 2, False, "kani::any()", 3),
-                 (2, 9, False, "0x53", 3)]
+        # (multiplying ops at T >= 8 need > 12 GB and ~10 min each: the wide thorough configurations stay add-only)
+        cfgs += [(2, 2, False, "kani::any()", 3), (3, 8, True, "0x8E", 1), (2, 17, False, "0x1D", 1), (4, 4, True, "0x02", 1), (3, 2, True, "0x02", 3)]
     return cfgs
 
 
